@@ -159,11 +159,14 @@ pub struct Focus {
     pub re_register: bool,
     /// replaces the tape-decoded max_tx_size (second pass of C07: the same history under a limit just below its size)
     pub max_tx_size_override: Option<u32>,
+    /// a script-capable operation (Plutus input, certificate, withdrawal, mint, vote, proposal) is followed by 0-3 more
+    /// of its kind, so that several items of one redeemer purpose meet in one transaction (C10)
+    pub bursts: bool,
 }
 
 impl Focus {
     pub fn general() -> Focus {
-        Focus { scripts: 70, certs: 60, assets: 90, many_assets: false, governance: 40, boundaries: true, max_ops: 14, selection: 70, re_register: false, max_tx_size_override: None }
+        Focus { scripts: 70, certs: 60, assets: 90, many_assets: false, governance: 40, boundaries: true, max_ops: 14, selection: 70, re_register: false, max_tx_size_override: None, bursts: false }
     }
 }
 
@@ -1168,6 +1171,7 @@ pub fn run(tape: &[u8], focus: Focus) -> Option<Outcome> {
     let skip_hash = pt.chance(12);
     let collateral_route = pt.choose(5);
     let cm_variant = pt.choose(3);
+    let bursts = focus.bursts && pt.bool();
     let tb = TransactionBuilder::new(&cfg);
     let mut r = Run {
         t: Tape::new(content),
@@ -1218,19 +1222,22 @@ pub fn run(tape: &[u8], focus: Focus) -> Option<Outcome> {
             }
             x -= w;
         }
-        match kind {
-            0 => r.op_key_input(),
-            1 => r.op_byron_input(),
-            2 => r.op_native_input(),
-            3 => r.op_plutus_input(),
-            4 => r.op_output(),
-            5 => r.op_cert(),
-            6 => r.op_withdrawal(),
-            7 => r.op_mint(),
-            8 => r.op_vote(),
-            9 => r.op_proposal(),
-            11 => r.op_re_add_input(),
-            _ => r.op_misc(),
+        let reps = if bursts && matches!(kind, 3 | 5 | 6 | 7 | 8 | 9) { 1 + [0usize, 0, 1, 2, 3][r.t.choose(5)] } else { 1 };
+        for _ in 0..reps {
+            match kind {
+                0 => r.op_key_input(),
+                1 => r.op_byron_input(),
+                2 => r.op_native_input(),
+                3 => r.op_plutus_input(),
+                4 => r.op_output(),
+                5 => r.op_cert(),
+                6 => r.op_withdrawal(),
+                7 => r.op_mint(),
+                8 => r.op_vote(),
+                9 => r.op_proposal(),
+                11 => r.op_re_add_input(),
+                _ => r.op_misc(),
+            }
         }
     }
     // deposits / refunds of the certificates, from the scenario's own table (for funding only)
